@@ -5,7 +5,7 @@ Import ListNotations.
 Local Open Scope N_scope.
 
 Definition entry := (N * N)%type.          (* key, value *)
-Definition chain := list entry.            (* head of the C++ chain first *)
+Notation chain := (list entry).            (* head of the C++ chain first *)
 Record hm := mk_hm { table : list chain; size : nat }.   (* _capacity = length table *)
 
 Definition empty_hm : hm := mk_hm [] 0.
